@@ -155,10 +155,13 @@ Definition lower (s : bytes) : bytes := map to_lower s.
 Definition split2 (s : bytes) : list bytes :=
   match split_at 32 s with (a, None) => [a] | (a, Some b) => [a; b] end.
 
-Fixpoint clause_of (cmd : bytes) (cases : list (list bytes)) (i : nat) : nat :=
+(* the kind of value parseCtrlMsg stores for a command (regenerated from the switch in the
+   source: 0 bool, 4 state, 5 string, 6 list split at spaces, 7 list split at commas, 8 int,
+   1 nothing); commands in no clause get nothing *)
+Fixpoint kind_of (cmd : bytes) (cases : list (N * list bytes)) : N :=
   match cases with
-  | [] => i
-  | c :: r => if existsb (beq_bytes cmd) c then i else clause_of cmd r (S i)
+  | [] => 1
+  | (k, c) :: r => if existsb (beq_bytes cmd) c then k else kind_of cmd r
   end.
 
 Fixpoint lookup_state (k : bytes) (m : list (bytes * N)) : N :=
@@ -188,13 +191,13 @@ Definition parse_ctrl (str : bytes) : option (bytes * cval) :=
       let cmd := upper c in
       let p1 := if prefixb [110; 111; 119; 32] (lower p1) then skipn 4 p1 else p1 in
       let v :=
-        match clause_of cmd ardop_ctrl_cases 0 with
-        | 0%nat => VBool (beq_bytes (lower p1) [116; 114; 117; 101])
-        | 4%nat => VState (lookup_state (upper p1) ardop_state_map)
-        | 5%nat => VStr p1
-        | 6%nat => VList (map trim_space_go (split_on 32 p1))
-        | 7%nat => VList (map trim_space_go (split_on 44 p1))
-        | 8%nat => VInt (atoi p1)
+        match kind_of cmd ardop_ctrl_cases with
+        | 0 => VBool (beq_bytes (lower p1) [116; 114; 117; 101])
+        | 4 => VState (lookup_state (upper p1) ardop_state_map)
+        | 5 => VStr p1
+        | 6 => VList (map trim_space_go (split_on 32 p1))
+        | 7 => VList (map trim_space_go (split_on 44 p1))
+        | 8 => VInt (atoi p1)
         | _ => VNone
         end in
       Some (cmd, v)
